@@ -171,10 +171,32 @@ Fixpoint assoc_str (k : str) (l : list (str * str)) : option str :=
   | (k', v) :: r => if str_eqb k' k then Some v else assoc_str k r
   end.
 
+(* `prefix in ns_map` *)
+Definition ns_has (k : option str) (m : nsmap) : bool := existsb (fun e => okey_eqb (fst e) k) m.
+
+(* number = len(ns_map); while f"ns{number}" in ns_map: number += 1
+   (at most len(ns_map)+1 candidates are needed: fuel) *)
+Fixpoint free_prefix (fuel : nat) (n : N) (m : nsmap) : str :=
+  let p := generated_prefix_stem ++ to_dec n in
+  match fuel with
+  | O => p
+  | S k => if ns_has (Some p) m then free_prefix k (n + 1) m else p
+  end.
+
+(* generate_prefix (since /repo e811fed): the standard prefix of a known namespace
+   only if it is unbound or bound to this very uri (ns_map.get(std, uri) == uri),
+   otherwise the first free ns<number>; then ns_map[prefix] = uri *)
 Definition generate_prefix (uri : str) (m : nsmap) : str * nsmap :=
-  let prefix := match assoc_str uri standard_namespaces with
+  let std := match assoc_str uri standard_namespaces with
+             | Some p => match ns_get (Some p) m with
+                         | None => Some p
+                         | Some u => if str_eqb u uri then Some p else None
+                         end
+             | None => None
+             end in
+  let prefix := match std with
                 | Some p => p
-                | None => generated_prefix_stem ++ to_dec (N.of_nat (length m))
+                | None => free_prefix (S (length m)) (N.of_nat (length m)) m
                 end in
   (prefix, ns_set (Some prefix) uri m).
 
